@@ -90,12 +90,23 @@ CounterOK == /\ last.op.op = "reseed" => a.c = 0
              /\ last.op.op = "ints" => a.c = Min2(last.op.n, Tries)
              /\ last.op.op = "draw" => (a.c >= 1 /\ (last.ra.res.t = "err") = (Len(last.ra.src) = 0))
              /\ a.c <= nops * Tries
-\* the rejection loop, the error path and an accepted retry are all reachable (otherwise the model is vacuous);
-\* checked as "this invariant must be VIOLATED" by the check driver
-NoRetryThenAccept == ~(last.op.op = "draw" /\ last.ra.res.t = "ok" /\ a.c >= 2 /\ last.op.deg = 2)
-NoDrawError == ~(last.op.op = "draw" /\ last.ra.res.t = "err")
+\* Vacuity guards, evaluated by TLC before the search: over the model fields a draw that is accepted
+\* after a rejected candidate, a draw that fails after Tries candidates, and a first-candidate accept exist.
+Starts(seed) == {C!New(<<>>, seed).st}
+                  \cup {C!Reseed(<<>>, C!New(<<>>, seed).st, <<"d", k>>).st : k \in DigestAtoms}
+                  \cup {C!Reseed(<<>>, C!Reseed(<<>>, C!New(<<>>, seed).st, <<"d", k>>).st, <<"d", j>>).st :
+                           k \in DigestAtoms, j \in DigestAtoms}
+Draws(fld) == {C!Draw(<<>>, fld, st0, deg) : st0 \in UNION {Starts(seed) : seed \in SeedSet}, deg \in Degs}
+ASSUME RetryThenAcceptReachable ==
+  \E fld \in MFields : \E r \in Draws(fld) : r.res.t = "ok" /\ r.st.c >= 2
+ASSUME DrawErrorReachable ==
+  \E fld \in MFields : \E r \in Draws(fld) : r.res.t = "err" /\ r.st.c = Tries
+ASSUME FirstAcceptReachable ==
+  \E fld \in MFields : \E r \in Draws(fld) : r.res.t = "ok" /\ r.st.c = 1
 
 MFieldsAll == {"m97", "m251"}
 SeedsTwo == {<<>>, <<1, 0, 0, 0>>}
+SeedsOne == {<<1, 0, 0, 0>>}
+NoncesTwo == {Z8, <<255, 255, 255, 255, 255, 255, 255, 255>>}
 NoncesThree == {Z8, <<1, 0, 0, 0, 0, 0, 0, 0>>, <<255, 255, 255, 255, 255, 255, 255, 255>>}
 =============================================================================
